@@ -931,6 +931,32 @@ def rule_mint_nonzero(rep, F):
         rep.violation("MINT-nonzero", "MintAssets::insert|zero", "MintAssets::insert no longer fails on a zero amount", {})
 
 
+def rule_bundle_typed(rep, F):
+    """multiasset = { + policy_id => { + asset_name => positive_coin } }: what the typed insertion API lets through"""
+    import fieldflow as ff
+    import mustpass as mp
+    from ruleutil import find_fn
+    rep.rule("BUNDLE-typed", "the typed insertion API of asset bundles keeps the CDDL's non-emptiness and positivity: MultiAsset::insert stores a bundle only on the non-empty edge of a test of its length, Assets::insert stores a quantity only on the non-zero edge of a zero test - otherwise a value built through the typed API is written with `policy => {}` or `asset => 0`")
+    for key, what, tests in (("MultiAsset::insert", "an empty bundle (`policy => {}`)", ("len", "is_empty")), ("Assets::insert", "a zero quantity (`asset => 0`)", ("is_zero",))):
+        fid = find_fn(rep, F, key)
+        if not fid:
+            continue
+        rep.inst("BUNDLE-typed")
+        fn = F.fns[fid]
+        org = ff.Origins(F, fid)
+        sites = [c for c in F.calls(fid) if (c.to or "").endswith("::insert")]
+        ok = bool(sites)
+        for c in sites:
+            g = False
+            for s_, edge, d in mp.dominating_guards(F, fid, c.bb, org):
+                txt = (d.get("callee") or "") + " ".join(d.get("lhs", []) + d.get("rhs", []))
+                if any(("::%s" % t) in txt for t in tests) or (d["kind"] == "bin" and "const" in d.get("lhs", []) + d.get("rhs", [])):
+                    g = True
+            ok = ok and g
+        if not ok:
+            rep.violation("BUNDLE-typed", key, "%s stores its argument without a test: a MultiAsset / Value built through the typed API can hold %s, which the writer emits as it is; the Conway CDDL requires non-empty bundles of positive quantities" % (key, what), {})
+
+
 def check(rep, F, tier, replay=None):
     cddl = common.load_table("conway_cddl.json")
     aud = common.load_table("e2_audited.json")
@@ -948,6 +974,7 @@ def check(rep, F, tier, replay=None):
     rule_zero_prune(rep, F)
     rule_pos_field(rep, F, cddl)
     rule_mint_nonzero(rep, F)
+    rule_bundle_typed(rep, F)
     rule_size_field(rep, F, cddl)
     rule_int_width(rep, F, cddl)
     return rep.finish(EXPLANATION, ASSUMPTIONS, trusted_base=["csl-facts driver (HIR/MIR dump of the type-checked crate)", "tables/conway_cddl.json (CDDL transcription)", "tables/e2_audited.json", "tables/body_origins.json", "cbor_event head encoding"])
